@@ -122,6 +122,17 @@ def definition(overload, classes):
     if any(p[1] == 'hidden' and p[2].startswith('Super/') for p in params):
         fd = _fds[key] = _override(overload, classes)
         return fd
+    fd = specs.get_function_definition(python_function(overload, classes), name='foo', convention=CONVENTION)
+    fd.meta['tag'] = tag
+    _fds[key] = fd
+    return fd
+
+
+def python_function(overload, classes):
+    """A fresh python function for an overload description, decorated the way a
+    host declares it: @specs.parameter / @specs.inject per parameter, @specs.method
+    / @specs.extension_method for the kind, @specs.no_kwargs."""
+    tag, params, kind, no_kwargs = overload
     sig, ns, star, dflt = [], {'_report': _report}, False, False
     for (name, k, t, nullable, hasdef) in params:
         py = python_name(name)
@@ -162,10 +173,7 @@ def definition(overload, classes):
         fn = specs.extension_method(fn)
     if no_kwargs:
         fn = specs.no_kwargs(fn)
-    fd = specs.get_function_definition(fn, name='foo', convention=CONVENTION)
-    fd.meta['tag'] = tag
-    _fds[key] = fd
-    return fd
+    return fn
 
 
 def _override(overload, classes):
@@ -198,7 +206,12 @@ class OrderedContext(contexts.Context):
         self._order = []
 
     def register_function(self, spec, *args, **kwargs):
-        assert isinstance(spec, specs.FunctionDefinition)
+        if not isinstance(spec, specs.FunctionDefinition):
+            # a python function: the library builds the definition; it is the one that was not there before
+            before = set(fd for fds in self._functions.values() for fd in fds)
+            super(OrderedContext, self).register_function(spec, *args, **kwargs)
+            self._order += [fd for fds in self._functions.values() for fd in fds if fd not in before]
+            return
         super(OrderedContext, self).register_function(spec, *args, **kwargs)
         if spec not in self._order:
             self._order.append(spec)
@@ -255,6 +268,34 @@ def build_layers(layers, classes, base, context_class=OrderedContext):
         ctx = context_class(ctx)
         for o in overloads:
             ctx.register_function(definition(o, classes), exclusive=exclusive)
+    return ctx.create_child_context()
+
+
+def construct(ctx, overload, classes, via, exclusive=False):
+    """Register an overload whose kind is reached by a construction path
+    via = (how, decorated, function, method): the python function is declared
+    with `decorated` (None | 'method' | 'ext'; overload[2] is the kind that
+    results, models.resolve.kind_after) and the tri-state overrides are given to
+    how = 'register': context.register_function(f, name=..., function=..., method=...)
+    how = 'define':   specs.get_function_definition(f, name=..., function=..., method=...), registered as a definition."""
+    how, decorated, function, method = via
+    tag, params, kind, no_kwargs = overload
+    fn = python_function((tag, params, {None: 'function'}.get(decorated, decorated), no_kwargs), classes)
+    if how == 'register':
+        ctx.register_function(fn, name='foo', function=function, method=method, exclusive=exclusive)
+    else:
+        ctx.register_function(specs.get_function_definition(fn, name='foo', function=function, method=method,
+                                                            convention=CONVENTION), exclusive=exclusive)
+
+
+def build_constructed(built, classes, base, context_class=OrderedContext):
+    """build_layers for layers whose overloads carry their construction path:
+    built = ((exclusive, ((overload, via), ...)), ...) nearest first."""
+    ctx = base
+    for exclusive, overloads in reversed(built):
+        ctx = context_class(ctx)
+        for o, via in overloads:
+            construct(ctx, o, classes, via, exclusive)
     return ctx.create_child_context()
 
 
@@ -359,3 +400,79 @@ def textual(ctx, call):
     """The same call written as YAQL text and evaluated as a statement."""
     st = yq.parse(text_of(call))
     return _observe(lambda: st.evaluate(context=ctx))
+
+
+# ---------------------------------------------------------------------------
+# the smart-type alphabet (models.resolve.type_accepts / resolve_typed)
+# ---------------------------------------------------------------------------
+import datetime as _datetime       # noqa: E402
+
+# value class of the model -> ($name / p<name>() probe, the value)
+TYPE_VALUES = {'s': 'k', 'i': 1, 'f': 1.5, 't': True, 'n': None, 'l': (1, 2), 'd': utils.FrozenDict({'a': 'v'}),
+               'g': iter(()), 'w': _datetime.datetime(2020, 1, 2), 'a': A()}
+VALUE_CLASS = {'s': 'str', 'i': 'int', 'f': 'float', 't': 'bool', 'n': 'null', 'l': 'list', 'd': 'dict',
+               'g': 'iterator', 'w': 'datetime', 'a': 'object'}
+_PYTHON = {'object': object, 'str': str, 'A': A}
+
+
+def value_class(v):
+    """The model's value class of a python value (for the harness self-check)."""
+    for cls, name in ((type(None), 'null'), (bool, 'bool'), (str, 'str'), (int, 'int'), (float, 'float'),
+                      (_datetime.datetime, 'datetime'), (utils.MappingType, 'dict'), (utils.SequenceType, 'list'),
+                      (utils.IteratorType, 'iterator')):
+        if isinstance(v, cls):
+            return name
+    return 'object'
+
+
+def smart_type(t):
+    """The yaqltypes object of a type description of the model."""
+    name = t[0]
+    if name == 'Expression':
+        classes = tuple(getattr(expressions, c) for c in t[1])
+        return yaqltypes.YaqlExpression(classes[0] if len(classes) == 1 else classes or None)
+    if name == 'Lambda':
+        return yaqltypes.Lambda(method=t[1])
+    if name == 'Keyword':
+        return yaqltypes.Keyword()
+    if name == 'Python':
+        return yaqltypes.PythonType(_PYTHON[t[1]], t[2])
+    if name in ('AnyOf', 'Chain'):
+        return getattr(yaqltypes, name)(*[smart_type(x) for x in t[1]], nullable=t[2])
+    if name == 'NotOfType':
+        return yaqltypes.NotOfType(smart_type(t[1]), nullable=t[2])
+    return getattr(yaqltypes, name)(nullable=t[1])
+
+
+_typed = {}
+
+
+def typed_definition(tag, types):
+    """foo(x[, y]) with the parameters declared by @specs.parameter(name, smart type)."""
+    key = (tag, types)
+    if key not in _typed:
+        names = ('x', 'y')[:len(types)]
+        ns = {'_report': _report}
+        exec('def foo(%s):\n    return _report(%r, (%s,))\n' % (
+            ', '.join(names), tag, ', '.join('(%r, %s)' % (n, n) for n in names)), ns)
+        fn = ns['foo']
+        for n, t in zip(names, types):
+            fn = specs.parameter(n, smart_type(t))(fn)
+        _typed[key] = specs.get_function_definition(fn, name='foo', convention=CONVENTION)
+    return _typed[key]
+
+
+def build_typed(layers, base):
+    """Chain of contexts for layers ((exclusive, ((tag, types), ...)), ...) nearest first."""
+    ctx = base
+    for exclusive, overloads in reversed(layers):
+        ctx = OrderedContext(ctx)
+        for tag, types in overloads:
+            ctx.register_function(typed_definition(tag, types), exclusive=exclusive)
+    return ctx.create_child_context()
+
+
+def typed_call(ctx, texts):
+    """foo(<argument texts>) evaluated as a statement -> (outcome, log of evaluated probes)."""
+    st = yq.parse('foo(%s)' % ', '.join(texts))
+    return _observe(lambda: st.evaluate(context=ctx))[:2]
